@@ -560,6 +560,16 @@ class ValidateTool(BaseTool):
             validator = Validator(schema=schema_def)
             validation_errors = validator.validate(doc, strict=strict_mode, section_schemas=section_schemas)
 
+            # Issue #190: findings with severity "warning" (W001, UNKNOWN_FIELDS::WARN policy) are
+            # advisory. They are surfaced in warnings but are not validation errors and must not
+            # by themselves turn the status into INVALID.
+            result["warnings"].extend(
+                {"code": err.code, "message": err.message, "field": err.field_path}
+                for err in validation_errors
+                if err.severity == "warning"
+            )
+            validation_errors = [err for err in validation_errors if err.severity != "warning"]
+
             if validation_errors:
                 # Convert errors to dicts for reporting
                 error_dicts = [
